@@ -32,6 +32,8 @@ OTHER2 = ["S\tzz9\t*", "L\tzz1\t+\tzz2\t-\t*", "C\tzz1\t+\tzz2\t-\t0\t*", "P\tzz
 def gen(streams, tier, i):
     cfg = streams.get("config")
     k = G.swarm_knobs(cfg)
+    k["taglike_seq"] = True
+    k["ln_tag"] = True
     k["max_seg"] = cfg.choice([1, 2, 3])
     k["max_link"] = cfg.choice([0, 2, 4])
     k["max_edge"] = cfg.choice([0, 2, 4])
@@ -230,16 +232,20 @@ def run(scn, st):
             continue
         v = g.version
         if expect == "either":
-            # a version-neutral document: constructor entry points settle on the default guess,
-            # from_file leaves it open; compare orders per entry point only
+            # a version-neutral document: whatever the default is, it is the same for every order and every
+            # entry point (the version depends on the content alone) and it is a version, not 'undecided'
             if seen_version is None:
                 seen_version = {}
-            if op["entry"] not in seen_version:
-                seen_version[op["entry"]] = v
-            elif v != seen_version[op["entry"]]:
+            if v is None:
+                raise core.Violation("version-undecided", "neutral document: version is None after the whole document "
+                                     "was read (order %r, entry %s)" % (perm, op["entry"]), entry=op["entry"])
+            if "*" not in seen_version:
+                seen_version["*"] = (v, op["entry"])
+            elif v != seen_version["*"][0]:
                 raise core.Violation("version-order-dependent",
-                                     "neutral document: version %r in one order, %r in order %r" %
-                                     (seen_version[op["entry"]], v, perm), entry=op["entry"])
+                                     "neutral document: version %r (entry %s), %r in order %r (entry %s)" %
+                                     (seen_version["*"][0], seen_version["*"][1], v, perm, op["entry"]),
+                                     entry=op["entry"])
             continue
         if v != expect:
             raise core.Violation("wrong-version", "document is %s but gfa.version=%r (order %r, entry %s)" %
